@@ -31,8 +31,11 @@ impl FF {
 }
 
 /// Is the geometry comfortably away from every term's singular set?
-pub fn well_conditioned(terms: &[TermDesc], x: &[Point]) -> bool {
-    let sin_ok = |i: usize, j: usize, k: usize| angle_value(i, j, k, x).sin().abs() > 0.12;
+pub fn well_conditioned(terms: &[TermDesc], x: &[Point]) -> bool { well_conditioned_with(terms, x, 0.12) }
+
+/// `smin`: the smallest |sin| of a bend / flanking angle at which the finite difference is still trusted
+pub fn well_conditioned_with(terms: &[TermDesc], x: &[Point], smin: f64) -> bool {
+    let sin_ok = |i: usize, j: usize, k: usize| angle_value(i, j, k, x).sin().abs() > smin;
     for t in terms {
         let ix = &t.idxs;
         let ok = match t.kind {
@@ -136,6 +139,47 @@ pub fn run(out: &mut Out, seed: u64, tier: &str) {
             }
         }
     }
+    // wide-angle geometries: a force field built at an ordinary geometry, evaluated where one flanking angle of one of
+    // its torsions has been opened to 174.5-178 degrees (inside the 0.1 rad window in which construction would not have
+    // added the torsion, so only a later distortion gets there). Conditioning: |sin| > 0.03 is enough for the
+    // Richardson difference at h = 2e-4.
+    let mut n_wide = 0usize;
+    for m in mols.iter().take(if tier == "thorough" { 600 } else { 200 }) {
+        if m.n() > 14 { continue; }
+        let mol = match catch(|| m.build()) { Some(x) => x, None => continue };
+        let mut ff = match FF::build("uff", &mol) { Some(f) => f, None => continue };
+        let terms = ff.terms();
+        let mut deg = vec![0usize; m.n()];
+        for t in terms.iter().filter(|t| t.kind == "bond") { deg[t.idxs[0]] += 1; deg[t.idxs[1]] += 1; }
+        let tors: Vec<&TermDesc> = terms.iter().filter(|t| t.kind == "torsion" && t.params[2] != 0.0 && (deg[t.idxs[0]] == 1 || deg[t.idxs[3]] == 1)).collect();
+        if tors.is_empty() { continue; }
+        let t = tors[rng.below(tors.len())];
+        let (i, j, k) = if deg[t.idxs[0]] == 1 { (t.idxs[0], t.idxs[1], t.idxs[2]) } else { (t.idxs[3], t.idxs[2], t.idxs[1]) };
+        let mut g = distort(m, 0.03, &mut rng);
+        let sub = |a: [f64; 3], b: [f64; 3]| [a[0] - b[0], a[1] - b[1], a[2] - b[2]];
+        let dot = |a: [f64; 3], b: [f64; 3]| a[0] * b[0] + a[1] * b[1] + a[2] * b[2];
+        let u0 = sub(g.xs[k], g.xs[j]); let lu = dot(u0, u0).sqrt(); let u = [u0[0] / lu, u0[1] / lu, u0[2] / lu];
+        let v = sub(g.xs[i], g.xs[j]); let r = dot(v, v).sqrt();
+        let vp = [v[0] - dot(v, u) * u[0], v[1] - dot(v, u) * u[1], v[2] - dot(v, u) * u[2]];
+        let lw = dot(vp, vp).sqrt();
+        if lw < 1e-3 || r < 0.3 { continue; }
+        let w = [vp[0] / lw, vp[1] / lw, vp[2] / lw];
+        let delta = (180.0 - rng.range(174.5, 178.0)).to_radians();
+        for c in 0..3 { g.xs[i][c] = g.xs[j][c] + r * (-delta.cos() * u[c] + delta.sin() * w[c]); }
+        if g.min_distance() < 0.6 { continue; }
+        let x = g.points();
+        let e = ff.energy(&x);
+        if !(e.is_finite() && e.abs() < 1e7) || !well_conditioned_with(&terms, &x, 0.03) { continue; }
+        let gr = ff.gradient(&x);
+        let tt = terms.iter().map(term_text).collect::<Vec<_>>().join(";");
+        let mut o = vec![hx(e)];
+        o.extend(gr.iter().map(|v| hx(*v)));
+        out.case(&format!("ff uff {} | {} | {}", m.n(), tt, coords_text(&x)), &o.join(" "));
+        n_cases += 1;
+        let replay = format!("uff forcefield built on\n{}evaluated (angle {}-{}-{} opened to {:.2} deg) on\n{}", m.xyz_text(), i, j, k, 180.0 - delta.to_degrees(), g.xyz_text());
+        if fd_check(out, &mut ff, &terms, &x, "uff wide-angle", &replay, &mut worst) { n_fd += 1; n_wide += 1; }
+    }
+    out.stat("wide_angle_geometries_fd_checked", n_wide);
     out.stat("cases", n_cases);
     out.stat("fd_checked_geometries", n_fd);
     out.stat("fd_worst_relative_error", format!("{:e}", worst));
